@@ -14,7 +14,7 @@ func init() {
 		Explanation: "Decides the local facts whose conjunction is the textbook argument for at-least-once delivery through Router stages connected by GoChannel topics (the composition itself is a pen-and-paper argument in DESIGN §3, not mechanised): a stage Acks only behind chain-error==nil and publish-error==nil, every failure exit (handler error, publish error, recovered panic of handler or publisher) Nacks, outputs of a failed attempt are not published (the C02 obligations, re-decided here); " +
 			"the broker re-sends a fresh copy after every Nack and stops only after an Ack or when the subscription is closed, and owns the subscription until settlement (C04.O2, C05.O1); nothing is invented: every value sent to a subscriber is Copy() of the deliver function's message, and every message handed to the deliver function is a copy of a message given to Publish or an element of the persisted log, which is only ever extended with such copies. " +
 			"The router's registration and life-cycle obligations (C09, C10) are decided here too: a stage whose handler is dropped from the router or never started consumes nothing, and its input topic loses what was published to it. " +
-			"The obligations of the Retry middleware (C12) and of the simple middlewares (C19) are decided here too, because a library middleware that turns a failed attempt into a success or drops outputs makes a stage Ack a message that never reached the next topic. Not decided: that redelivery eventually happens (scheduler), third-party Pub/Subs, the fault-free suffix assumption.",
+			"The obligations of the metrics middleware (C20: an observation that panics after a successful handler call makes the stage Nack what it handled), of the Retry middleware (C12) and of the simple middlewares (C19) are decided here too, because a library middleware that turns a failed attempt into a success or drops outputs makes a stage Ack a message that never reached the next topic. Not decided: that redelivery eventually happens (scheduler), third-party Pub/Subs, the fault-free suffix assumption.",
 		Assumptions: commonAssumptions,
 	})
 }
@@ -42,6 +42,9 @@ func runC01(c *Check) {
 	// the library's own middlewares sit inside the stages: none of them turns a failure into a success or drops outputs
 	c12All(c, P+".M12")
 	c19All(c, P+".M19")
+	// … and so does the metrics middleware, which observes after every handler call: an observation that panics makes the
+	// stage Nack a message its handler had handled
+	c20Metrics(c, P+".M20")
 	// which middlewares and decorators wrap a stage is part of what the stage does with a message: a foreign handler's
 	// InstantAck, or a deduplicating decorator applied twice, acks what was never published
 	if r2 := c.routerRoles2(P + ".M09"); r2 != nil {
